@@ -94,6 +94,25 @@ def run(ctx):
                                   {'op': 'sign', 'input': i, 'kind': m['kind'], 'have': len(sigs), 'need': m['m']})
                 sigchecks.append((raw, i, m, [s.as_der_encoded()[:-1] if s.as_der_encoded()[-1:] == bytes([s.hash_type]) else s.as_der_encoded() for s in sigs],
                                   [k.public_byte for k in m['keys']]))
+    # ---- lengths at the CompactSize thresholds inside the preimage: an output script of 252 / 253 / 65535 / 65536 bytes
+    for ln in (252, 253, 65535, 65536):
+        t, d = txgen.build_api_tx(rng, nin=2, nout=1, max_n=2)
+        big = b'\x6a' + b'\x61' * (ln - 1)
+        try:
+            t.add_output(0, lock_script=big)
+        except Exception as e:
+            ctx.count('big-output-script-refused')
+            continue
+        d['outs'] = d['outs'] + [(0, big)]
+        d['version'] = t.version_int
+        rawb = txgen.ser_tx(d)
+        ctx.count('output-script-length:%d' % ln)
+        for i, m in enumerate(d['meta']):
+            try:
+                h = t.signature_hash(i, 1, t.inputs[i].witness_type).hex()
+            except Exception as e:
+                h = 'raise:' + type(e).__name__
+            cases.append(('sighash %s %d %s %d %d %s' % (rawb.hex(), i, hexp(m['sc']), m['val'], 1, m['wt']), h, True))
     # ---- merged transactions (t1 + t2 / merge_transaction): inputs and outputs are re-ordered and re-signed by the library; the digest of
     # every input must be the consensus digest of the merged transaction as serialised, and the new signatures must be valid for it
     for trial in range(40 if T else 10):
